@@ -478,6 +478,74 @@ def _job(args):
     return sc, ob, viol
 
 
+def _cli_interrupt_job(args):
+    """C14 through the command line: Ctrl-C (KeyboardInterrupt in the main loop) while standard input is still delivering audio"""
+    idx, pattern, delay_ms, after, mn, mx, ms = args
+    sys.path.insert(0, C.REPO)
+    import io as _io
+    import time as _time
+    from .cli import run_cli
+    import auditok
+    import auditok.io as aio
+    data = synth(pattern, 0)
+    d = os.path.join(C.TMP, "cliint_%d_%d" % (os.getpid(), idx))
+    os.makedirs(d, exist_ok=True)
+    out_wav = os.path.join(d, "stream.wav")
+
+    class Slow(_io.RawIOBase):
+        def __init__(self):
+            self.i = 0
+
+        def readable(self):
+            return True
+
+        def readinto(self, b):
+            _time.sleep(delay_ms / 1000.0)
+            k = min(len(b), len(data) - self.i)
+            b[:k] = data[self.i:self.i + k]
+            self.i += k
+            return k
+
+    class FakeStdin:
+        buffer = _io.BufferedReader(Slow(), buffer_size=WIN * SW * CH)
+    old = aio.sys.stdin
+    aio.sys.stdin = FakeStdin
+    try:
+        argv = ["-", "-r", str(RATE), "-w", str(SW), "-c", str(CH), "-a", repr(BD), "-n", repr(mn * BD), "-m", repr(mx * BD), "-s", repr(ms * BD),
+                "-e", "50", "-O", out_wav, "--printf", "{id} {start} {end} {duration}"]
+        ob = run_cli(argv, None, interrupt_after=after)
+    finally:
+        aio.sys.stdin = old
+    res = {"argv": argv, "pattern": pattern, "interrupt_after_sleeps": after, "read_delay_ms": delay_ms, "status": ob["status"], "exception": ob["exc"],
+           "alive": ob["alive"], "stdout": ob["stdout"][:800]}
+    what = None
+    f = read_wav(out_wav) if os.path.exists(out_wav) else {"error": "not written"}
+    shutil.rmtree(d, ignore_errors=True)
+    if ob["exc"]:
+        what = "Ctrl-C during processing: main() raised %s" % ob["exc"]
+    elif ob["status"] != 0:
+        what = "Ctrl-C during processing: exit status %r, expected 0" % (ob["status"],)
+    elif ob["alive"]:
+        what = "Ctrl-C during processing: threads still alive after main() returned: %r" % (ob["alive"],)
+    elif "error" in f:
+        what = "Ctrl-C during processing: the saved stream is not a valid wav file (%s)" % f["error"]
+    elif not data.startswith(f["frames"]) or (f["rate"], f["sw"], f["ch"]) != (RATE, SW, CH):
+        what = "Ctrl-C during processing: the saved stream (%d bytes) is not a prefix of the audio that was delivered" % len(f["frames"])
+    else:
+        consumed = f["frames"]
+        sc = {"min_dur": mn * BD, "max_dur": mx * BD, "max_silence": ms * BD, "strict": False, "drop": False}
+        exp = expected_regions(sc, consumed)
+        want = ["%d %s %s %s" % (i, fmt3(st), fmt3(en), fmt3(du)) for (i, st, en, dd, du) in exp]
+        got = ob["stdout"].split("\n")
+        if got and got[-1] == "":
+            got.pop()
+        if got != want:
+            what = ("Ctrl-C after %d blocks (saved stream): printed detections %r are not the detections of the audio read up to the stop %r"
+                    % (len(consumed) // (WIN * SW * CH), got, want))
+        res["blocks_read"] = len(consumed) // (WIN * SW * CH)
+    return res, what
+
+
 def slim(ob):
     out = {k: ob.get(k) for k in ("stuck", "error", "anomalies", "crashes", "steps", "nreads", "printed", "alive", "stop_step", "threads_alive", "transient")}
     out["trace"] = ob.get("log", [])[:400]
@@ -554,6 +622,23 @@ def run(prop, tier):
     with mp.get_context("fork").Pool(C.NCPU) as pool:
         for sc, ob, viol in pool.imap_unordered(_job, jobs, chunksize=4):
             results.append((sc, ob, viol))
+    cli_runs = []
+    if prop == "C14":
+        cj = []
+        for i in range(16 if quick else 200):
+            nb = r.randint(4, 30)
+            pat = [1 if r.random() < 0.6 else 0 for _ in range(nb)]
+            mn_ = r.choice([1, 2]); mx_ = r.choice([3, 5, 50]); ms_ = r.choice([0, 1, 2])
+            if ms_ >= mx_:
+                ms_ = mx_ - 1
+            cj.append((i, pat, r.choice([1, 2, 4]), r.randint(1, 60), mn_, mx_, ms_))
+        with mp.get_context("fork").Pool(min(C.NCPU, 8)) as pool:
+            for res_c, what in pool.imap_unordered(_cli_interrupt_job, cj, chunksize=1):
+                cli_runs.append(res_c)
+                if what and "C14" not in violations:
+                    violations["C14"] = {"what": what, "cli_run": res_c}
+        hist["cli_interrupt_runs"] = len(cli_runs)
+        hist["cli_interrupted_mid_stream"] = sum(1 for c in cli_runs if c.get("blocks_read", 10 ** 9) < len(c["pattern"]))
     mcases, midx = [], []
     for i, (sc, ob, viol) in enumerate(results):
         hist[sc["kind"]] += 1
